@@ -207,7 +207,7 @@ class _Alt:
         self.hyps, self.goal, self.axioms = hyps, goal, axioms
 
 
-def verify_portfolio(c, extra_options=None, modes=("naive", "fuel", "recfun")):
+def verify_portfolio(c, extra_options=None, modes=("naive", "fuel")):
     """VCs of one contract under several sound encodings of the recursive spec functions.
 
     The primary obligations come from the first mode; the same obligation (same id) generated under
